@@ -778,8 +778,11 @@ impl Swift {
         let output_string = self.get_codable_contents();
         let output_path = Path::new(output_folder).join("Codable.swift");
 
+        // Compare with exactly what would be written (`write_codable` ends the file with a newline).
+        let mut expected = Vec::new();
+        self.write_codable(&mut expected, &output_string)?;
         if let Ok(buf) = fs::read(&output_path) {
-            if buf == output_string.as_bytes() {
+            if buf == expected {
                 return Ok(());
             }
         }
